@@ -22,7 +22,7 @@ ASSUMPTIONS = [
     "OpenSSL AES-128-CBC is the independent cipher; the frame model is written from the property text",
     "'reported as an error' = any exception from decrypt (the exception type is C14's business)",
     "a wrong-key unwrap that yields 'B' and a matching CRC by chance (p ~ 2^-24) is re-tried under 3 more keys before it is called a violation",
-    "security codes are 8 bytes (the documented size); other lengths are not judged",
+    "security codes of 0..40 bytes are judged (the key is the first 16 bytes of SHA-256 of the whole code, as stated); 8 bytes is the documented size",
 ]
 TIMEOUT = {"quick": 900, "thorough": 4 * 3600}
 NSH = 16
@@ -36,7 +36,7 @@ def mandatory_bins(tier):
     b = ["L%d" % L for L in range(254)]
     b += ["crc_lo_%02x" % v for v in range(256)] + ["crc_hi_%02x" % v for v in range(256)]
     b += ["crc_lo_00_solved", "crc_hi_00_solved", "crc_both_00_solved", "trailing_zero_payload", "key_ends_00",
-          "wrong_key", "wrong_marker", "wrong_crc", "custkey_pos_first", "custkey_pos_last", "custkey_mismatch", "custkey_pattern_before_slot", "shared_encryptor_object_sequence",
+          "wrong_key", "wrong_marker", "wrong_crc", "custkey_pos_first", "custkey_pos_last", "custkey_mismatch", "custkey_pattern_before_slot", "shared_encryptor_object_sequence", "customer_key_attributes_reassigned_between_calls", "security_code_length_other_than_8",
           "security_code", "security_code_all_zero", "model_frame_accepted", "same_object_reuse"]
     return b
 
@@ -297,6 +297,64 @@ def run_shard(spec, ctx):
             except Exception as e:
                 ctx.violation("wrap_raises", {"L": L, "exc": fmt_exc(e)}, rp)
                 break
+    # one customer-key encryptor whose PUBLIC attributes (customer_key, customer_key_pos) are reassigned between calls:
+    # every call must use the configuration the object has at that moment
+    if spec["res"] % 3 == 0:
+        k_ = rng.randbytes(16)
+        shared = B.SoftwareCustKeyEncryptor(k_) if spec["res"] % 2 else B.SoftwareCustKeyEncryptor(k_, rng.randbytes(10), 3)
+        steps = []
+        for _ in range(14):
+            r = rng.random()
+            if r < 0.25:
+                shared.customer_key = None
+                steps.append("key=None")
+            elif r < 0.6:
+                shared.customer_key = rng.randbytes(10)
+                if shared.customer_key_pos is None:
+                    shared.customer_key_pos = 0
+                steps.append("key=new")
+            else:
+                shared.customer_key_pos = rng.choice((0, 1, 5, 16, 30))
+                steps.append("pos=%d" % shared.customer_key_pos)
+            ck, pos = shared.customer_key, shared.customer_key_pos
+            payload = rng.randbytes(rng.randrange(40, 80))
+            inner = payload if ck is None else payload[:pos] + ck + payload[pos + 10 :]
+            back = payload if ck is None else payload[:pos] + bytes(10) + payload[pos + 10 :]
+            ctx.ev()
+            ctx.bin("customer_key_attributes_reassigned_between_calls")
+            ctx.distinct("attrs", k_, payload, ck, pos)
+            rp = {"kind": "cust", "key": k_.hex(), "payload": payload.hex(), "ck": ck.hex() if ck else None, "pos": pos, "code": None, "attribute_history": list(steps)}
+            try:
+                ct = shared.encrypt(payload)
+                fr = ossl.aes_cbc(k_, ossl.ZERO_IV, ct, False) if ct and len(ct) % 16 == 0 else b""
+                if fr != model.frame(inner):
+                    ctx.violation("frame_ignores_reassigned_customer_key_attributes", {"history": steps, "got": fr, "expected": model.frame(inner)}, rp)
+                    break
+                if shared.decrypt(ct) != back:
+                    ctx.violation("unwrap_ignores_reassigned_customer_key_attributes", {"history": steps}, rp)
+                    break
+                if ck is not None:
+                    foreign = bytes((b ^ 0x21) for b in ck)
+                    bad = model.frame(payload[:pos] + foreign + payload[pos + 10 :])
+                    if not _raises(lambda: shared.decrypt(ossl.aes_cbc(k_, ossl.ZERO_IV, bad, True)), ctx):
+                        ctx.violation("frame_with_foreign_customer_key_accepted_after_attribute_reassignment", {"history": steps}, rp)
+                        break
+            except Exception as e:
+                ctx.violation("wrap_raises", {"L": len(payload), "exc": fmt_exc(e), "history": steps}, rp)
+                break
+    # security codes of other lengths than 8 (the key is SHA-256 of the WHOLE code), and two codes sharing their first 8 bytes
+    if spec["res"] % 4 == 1:
+        for ln in (0, 1, 7, 9, 12, 16, 32, 40):
+            code = rng.randbytes(ln)
+            payload = rng.randbytes(rng.randrange(1, 60))
+            ctx.bin("security_code_length_other_than_8")
+            check_case(ns, ctx, "code", None, payload, code=code, nwrong=1, tamper=False)
+            if ln > 8:
+                other = code[:8] + bytes((b ^ 0x5A) for b in code[8:])
+                ctx.ev()
+                ct = B.ConfigSecurityCodeEncryptor(code).encrypt(payload)
+                if not _raises(lambda: B.ConfigSecurityCodeEncryptor(other).decrypt(ct), ctx):
+                    ctx.violation("frame_made_under_another_security_code_accepted:codes_share_first_8_bytes", {"len": ln}, {"kind": "code", "key": None, "payload": payload.hex(), "ck": None, "pos": None, "code": code.hex()})
     # customer key whose byte pattern also occurs in the payload BEFORE its slot (quoted key, periodic keys)
     if spec["res"] in (0, 5, 11):
         for L in (24, 40, 64, 100, 253):
